@@ -33,10 +33,11 @@ import OdakModel.Exec.OpsGenSampMore
 import OdakModel.Exec.OpsGenPly
 import OdakModel.Exec.OpsGenObj
 import OdakModel.Exec.OpsGenObjInst
+import OdakModel.Exec.OpsGenStats
 /-! `odakdrv`: reads one operation per line on stdin, prints the model's answer per line. -/
 namespace Odak.Exec
 
-def allOps : List (String × Handler) := opsIndex ++ opsWave ++ opsBeam ++ opsRot ++ opsPolar ++ opsRay ++ opsRays ++ opsColour ++ opsSlicing ++ opsFovea ++ opsProp ++ opsLoss ++ opsCodec ++ opsHolo ++ opsDual ++ opsGen ++ opsGenGeom ++ opsGenSamp ++ opsGenSlice ++ opsGenQuant ++ opsGenFovea ++ opsGenLoss ++ opsGenPipe ++ opsGenGeomBatch ++ opsGenDefocus ++ opsGenSphere ++ opsGenPipeMore ++ opsGenColour ++ opsGenPadCrop ++ opsGenImageCodec ++ opsGenState ++ opsGenRay ++ opsGenHolo ++ opsGenCyl ++ opsGenSampMore ++ opsGenPly ++ opsGenObj ++ opsGenObjLoss ++ opsGenObjMesh ++ opsGenObjInst
+def allOps : List (String × Handler) := opsIndex ++ opsWave ++ opsBeam ++ opsRot ++ opsPolar ++ opsRay ++ opsRays ++ opsColour ++ opsSlicing ++ opsFovea ++ opsProp ++ opsLoss ++ opsCodec ++ opsHolo ++ opsDual ++ opsGen ++ opsGenGeom ++ opsGenSamp ++ opsGenSlice ++ opsGenQuant ++ opsGenFovea ++ opsGenLoss ++ opsGenPipe ++ opsGenGeomBatch ++ opsGenDefocus ++ opsGenSphere ++ opsGenPipeMore ++ opsGenColour ++ opsGenPadCrop ++ opsGenImageCodec ++ opsGenState ++ opsGenRay ++ opsGenHolo ++ opsGenCyl ++ opsGenSampMore ++ opsGenPly ++ opsGenObj ++ opsGenObjLoss ++ opsGenObjMesh ++ opsGenObjInst ++ opsGenStats
 
 def step (line : String) : String :=
   match (line.trimAscii.toString.splitOn " ").filter (· ≠ "") with
